@@ -96,6 +96,10 @@ type Sim struct {
 	// OnFresh, if set, is called right after decoding, before anything else
 	// (re-encoding included) has touched the decoded value.
 	OnFresh func(d *Delivery)
+	// ExerciseDen > 0: with probability 1/ExerciseDen a process logs,
+	// reports and inspects a received error (obs.Exercise) before it
+	// re-encodes it for forwarding.
+	ExerciseDen int
 	// Mutate, if set, may rewrite the bytes of a message at send time (fault injection).
 	Mutate func(m *Msg) []byte
 }
@@ -182,6 +186,10 @@ func (s *Sim) deliver(m *Msg) {
 		m.At, m.Seq, m.Flow, m.Hop, m.Dst, m.Dup, len(m.Data), sum[:8], d.Panic)
 	if d.Err != nil && s.OnFresh != nil {
 		s.OnFresh(d)
+	}
+	if d.Err != nil && s.ExerciseDen > 0 && s.T.Bool(1, s.ExerciseDen) {
+		obs.Exercise(d.Err)
+		s.Stats.Faults["observed-before-forwarding"]++
 	}
 	if d.Err != nil {
 		d.ReData, d.RePanic = obs.Encode(d.Err)
